@@ -93,6 +93,38 @@ def applyOpts : List Opt → Query → Query
       else q
     applyOpts os q
 
+/-- Go `b[i]` with the run-time bounds check; `none` = panic "index out of range" -/
+def idx? (b : Bytes) (i : Nat) : Option Nat := if i < b.length then some (byteAt b i) else none
+
+/-- Go `b[lo:hi]` with the run-time bounds check; `none` = panic "slice bounds out of range" -/
+def slice? (b : Bytes) (lo hi : Nat) : Option Bytes :=
+  if lo ≤ hi ∧ hi ≤ b.length then some (slice b lo (hi - lo)) else none
+
+/-- one iteration of the option loop with every index expression on `o.Data` checked, written
+statement by statement after resolver/query/query.go (the guard `len(o.Data) < 8 → continue`, then
+`o.Data[1]`, `o.Data[2]`, `o.Data[4:8]`, `o.Data[4:20]`). `none` = the goroutine panics. -/
+def applyOpt? (o : Opt) (q : Query) : Option Query :=
+  if o.code = 0xfde9 then some { q with mac := some o.data }
+  else if o.code = 8 then
+    if o.data.length < 8 then some q
+    else
+      (idx? o.data 1).bind fun fam =>
+      if fam = 1 then
+        (idx? o.data 2).bind fun b2 =>
+        (if b2 = 32 then (slice? o.data 4 8).map fun ip => { q with peerIP := some ip } else some q).map fun q =>
+        { q with payload := nutterECS q.payload o.dataOff }
+      else if fam = 2 then
+        (idx? o.data 2).bind fun b2 =>
+        (if b2 = 128 ∧ o.data.length ≥ 20 then (slice? o.data 4 20).map fun ip => { q with peerIP := some ip }
+         else some q).map fun q =>
+        { q with payload := nutterECS q.payload o.dataOff }
+      else some q
+  else some q
+
+def applyOpts? : List Opt → Query → Option Query
+  | [], q => some q
+  | o :: os, q => (applyOpt? o q).bind (applyOpts? os)
+
 inductive LoopRes where
   | outOfFuel
   | done (st : Stage) (q : Query)
